@@ -6,6 +6,7 @@ import (
 	"fmt"
 	"reflect"
 	"sort"
+	"strings"
 	"testing"
 
 	"go.uber.org/thriftrw/protocol/binary"
@@ -318,6 +319,14 @@ func checkStatic(c StaticCase) error {
 	if d == nil {
 		return fmt.Errorf("definition %s not in schema", c.Target)
 	}
+	if strings.HasPrefix(c.What, "missing:") {
+		for _, m := range p.Missing {
+			if strings.HasSuffix(m, "|"+c.Target+"|"+strings.SplitN(c.What, ":", 3)[2]) {
+				return ev.Errf("missing/"+strings.SplitN(c.What, ":", 3)[1], "the generated package does not declare %s", strings.SplitN(c.What, ":", 3)[2])
+			}
+		}
+		return nil
+	}
 	switch c.What {
 	case "const":
 		v, ok := p.Consts[c.Target]
@@ -390,8 +399,19 @@ func C01Static(t *testing.T) {
 			c := StaticCase{CaseHeader: CaseHeader{ProgID: p.ID, Target: key, Program: p.Schema, Opts: p.Opts}, What: what}
 			d := ev.Digest([]byte(p.SchemaJSON), []byte(k))
 			ev.Case(d, true, "unit:c01-static", "static:"+what)
-			ev.KeepSample("c01-static", d, func() interface{} { return map[string]interface{}{"program": p.Schema.Summary(), "what": what, "name": key} })
+			ev.KeepSample("c01-static", d, func() interface{} {
+				return map[string]interface{}{"program": p.Schema.Summary(), "what": what, "name": key}
+			})
 			ev.ReportSoft(t, "c01-static", c, ev.Guard(func() error { return checkStatic(c) }))
+			n++
+		}
+	}
+	for _, p := range Programs() {
+		for _, m := range p.Missing {
+			parts := strings.SplitN(m, "|", 3)
+			c := StaticCase{CaseHeader: CaseHeader{ProgID: p.ID, Target: parts[1], Program: p.Schema, Opts: p.Opts}, What: "missing:" + parts[0] + ":" + parts[2]}
+			ev.Case(ev.Digest([]byte(p.SchemaJSON), []byte(m)), true, "unit:c01-static", "static:missing")
+			ev.ReportSoft(t, "c01-static", c, ev.Errf("missing/"+parts[0], "the generated package does not declare %s, which the program requires (%s %s)", parts[2], parts[0], parts[1]))
 			n++
 		}
 	}
